@@ -338,6 +338,7 @@ package pubsub
 //@   requires dqinv(dq) && dlinks(dq) && dcounters(dq) && held(dq.mtx) && after != nil && (after == dq.root || dmember(dq, after))
 //@   ensures[C20] dlinks(dq)
 //@   ensures[C07] dcounters(dq) && (old(dwkF(dq)) ==> dwkF(dq)) && (old(dwkB(dq)) ==> dwkB(dq)) && (old(dwkU(dq)) ==> dwkU(dq))
+//@   ensures[C20,C07] iterwake: result == nil ==> (old(dq.wFI) > 0 ==> dq.sNF + dq.sFI > 0) && (old(dq.wBI) > 0 ==> dq.sNB + dq.sBI > 0)
 //@   modifies after.next, old(after.next).prev, dq.view, element.idx, tfields(dq.tracker), dwakes(dq)
 //@   ghostset dq.view = (result == nil ? insert(old(dq.view), old(dpos(dq, after)), after.next) : old(dq.view))
 //@   ghostall element.idx(x) = result == nil ? (x == after.next ? old(dpos(dq, after)) : (x.list == dq && old(x.idx) >= old(dpos(dq, after)) ? old(x.idx) + 1 : old(x.idx))) : old(x.idx)
@@ -589,6 +590,8 @@ package pubsub
 //@   requires q != nil && !held(q.mu) && ctx != nil && cursor != nil && cursor.guard == q.mu
 //@   ensures !held(q.mu)
 //@   ensures failed: result != nil ==> (result == ErrQueueClosed && q.closed) || (result != ErrQueueClosed && done(ctx))
+//@   ensures[C20] eof: result == ErrQueueClosed ==> cursor.link == nil
+//@   ensures[C20] linked: result == nil ==> cursor.link != nil
 //@   modifies qwakes(q)
 //@   loop 1 invariant held(q.mu) && qinv(q) && qlinks(q) && qcounters(q) && wkNE(q) && wkUA(q) && unmodified(qguarded(q))
 
